@@ -27,15 +27,20 @@ import itertools
 import logging
 import os
 import random
+import re
 import shutil
 import subprocess
 import sys
 import tempfile
 import time
+import warnings
 from collections import ChainMap
 from concurrent.futures import ThreadPoolExecutor
 
 ROOT = os.path.dirname(os.path.abspath(__file__))
+# root of the tree holding the refactored bronzebeard package (overridable, used to check that this
+# script notices deliberately broken variants)
+NEW_ROOT = os.path.realpath(os.environ.get('EQUIV_NEW_ROOT', ROOT))
 N_PROGRAMS = int(os.environ.get('EQUIV_PROGRAMS', '3000'))
 N_CLI_RANDOM = int(os.environ.get('EQUIV_CLI_RANDOM', '1500'))
 JOBS = int(os.environ.get('EQUIV_JOBS', '8'))
@@ -45,8 +50,21 @@ FAILURES = []
 COUNTS = {}
 
 
+ADDRESS = re.compile(r' at 0x[0-9a-f]+>')
+
+
+def scrub_addresses(value):
+    # reprs such as "<function <lambda> at 0x7f...>" can end up inside error messages
+    if isinstance(value, str):
+        return ADDRESS.sub(' at 0x?>', value)
+    if isinstance(value, (list, tuple)):
+        return type(value)(scrub_addresses(v) for v in value)
+    return value
+
+
 def check(section, what, a, b):
     COUNTS[section] = COUNTS.get(section, 0) + 1
+    a, b = scrub_addresses(a), scrub_addresses(b)
     if a != b:
         FAILURES.append((section, what, a, b))
         if len(FAILURES) <= 25:
@@ -232,7 +250,8 @@ def random_arith(rng, depth=0):
             return rng.choice(list(CONSTANTS) + list(LABELS) + ['UNDEFINED', 'x1', 'sp'])
         if kind < 0.95:
             return rng.choice(CHAR_LITERALS)
-        return rng.choice(['1.5', '"s"', 'None', 'True'])
+        # (no string atoms here: "s" * <huge int> would try to allocate gigabytes)
+        return rng.choice(['1.5', 'None', 'True', '2.0'])
     if roll < 0.45:
         return rng.choice(['-', '~', '+', 'not ']) + ' ' + random_arith(rng, depth + 1)
     if roll < 0.55:
@@ -240,6 +259,9 @@ def random_arith(rng, depth=0):
     op = rng.choice(['+', '-', '*', '//', '%', '<<', '>>', '&', '|', '^', '/', '==', '<', 'and', 'or'])
     left = random_arith(rng, depth + 1)
     right = random_arith(rng, depth + 1)
+    if op == '*' and ("'" in left or "'" in right):
+        # 'a' * <huge int> would try to allocate gigabytes
+        op = '+'
     if op in ('<<',):
         # keep shifts small enough to stay fast
         right = rng.choice(['0', '1', '4', '11', '12', '20', '31', '32', '-1', 'ZERO', 'FOO'])
@@ -391,14 +413,34 @@ COMMON_REGS = ['s0', 's1', 'a0', 'a1', 'a2', 'a3', 'a4', 'a5', 'x8', 'x12', 'sp'
 
 
 class ProgramGenerator:
+    """
+    Random programs. "Tame" programs stick to well-formed lines (they mostly assemble and so reach
+    every pass), "wild" ones mix in malformed and out-of-range input (they mostly fail, which
+    compares the failure behaviour, including the partially filled constants / labels).
+    """
+
+    VALID_REGS = REG_NAMES[:-3]
+    TAME_COMPRESSED = [
+        'c.addi {c}, 4', 'c.addi {r}, -3', 'c.li {r}, -7', 'c.li {c}, 31', 'c.lui {c}, 5', 'c.lui a1, %hi(0x1f000)', 'c.slli {c}, 3',
+        'c.lwsp {r}, 8', 'c.swsp {r}, 12', 'c.addi16sp 32', 'c.addi16sp -64', 'c.addi4spn {c}, 16', 'c.lw {c}, 4({c2})',
+        'c.lw {c}, {c2}, 64', 'c.sw {c}, 8({c2})', 'c.sub {c}, {c2}', 'c.xor {c}, {c2}', 'c.or {c}, {c2}', 'c.and {c}, {c2}',
+        'c.srli {c}, 2', 'c.srai {c}, 31', 'c.andi {c}, -7', 'c.mv {r}, {r2}', 'c.add {r}, {r2}', 'c.jr {r}', 'c.jalr {r}',
+        'c.nop', 'c.ebreak', 'c.j %offset({l})', 'c.jal %offset({l})', 'c.beqz {c}, %offset({l})', 'c.bnez {c}, %offset {l}',
+        'c.addi {c}, %lo({k})', 'c.li {c}, %lo(%hi({k}))',
+    ]
 
     def __init__(self, mod, rng):
         self.mod = mod
         self.rng = rng
+        self.tame = rng.random() < 0.7
         self.constants = []
         self.aliases = []
         self.labels = ['l{}'.format(i) for i in range(rng.randrange(1, 7))]
         self.pending_labels = list(self.labels)
+        self.in_constant = False
+
+    def wild(self, probability):
+        return (not self.tame) and self.rng.random() < probability
 
     def reg(self):
         rng = self.rng
@@ -406,65 +448,96 @@ class ProgramGenerator:
             return rng.choice(self.aliases)
         if rng.random() < 0.6:
             return rng.choice(COMMON_REGS)
-        if rng.random() < 0.96:
-            return rng.choice(REG_NAMES[:-3])
-        return rng.choice(REG_NAMES)
+        if self.wild(0.04):
+            return rng.choice(REG_NAMES)
+        return rng.choice(self.VALID_REGS)
 
     def small(self):
         rng = self.rng
+        if self.wild(0.1):
+            return rng.choice([2048, -2049, 0xfff, 5000, -5000, 4096, 0x800])
         return rng.choice([0, 1, -1, 2, 4, 8, 12, 16, 31, 32, 60, 64, 124, 128, 252, 256, 496, 508, 512, -16, -32, -512,
-                           2047, -2048, 2048, -2049, 0x7ff, 0x800, 0xfff, rng.randrange(-64, 64), rng.randrange(-2048, 2048),
-                           rng.randrange(-5000, 5000)])
+                           2047, -2048, 0x7ff, -0x800, rng.randrange(-64, 64), rng.randrange(-2048, 2048)])
 
     def large(self):
         rng = self.rng
         return rng.choice([0x20000000, 0x20000800, 0x200007ff, 0x80000000, 0x7fffffff, 0xffffffff, 0xfffff800, 0x12345678,
-                           0x1000, 0xfffff, 0x100000, 0x7ffff000, 0x7ffff800, -0x80000000, 2**32, 2**33 + 5,
-                           rng.randrange(0, 2**32), rng.randrange(-2**31, 2**31)])
+                           0x1000, 0xfffff, 0x100000, 0x7ffff000, 0x7ffff800, 0x7ffff7ff, 0x800, 0x7ff, 0xfff,
+                           rng.randrange(0, 2**32), rng.randrange(0, 2**32), rng.randrange(0, 2**20)] +
+                          ([-0x80000000, 2**32, 2**33 + 5, -2**31 - 1] if not self.tame else []))
 
     def name(self):
         rng = self.rng
-        pool = self.constants + self.labels
-        if pool and rng.random() < 0.93:
-            return rng.choice(pool)
-        return rng.choice(['UNDEFINED', 'l99', 'x0', 'sp'])
+        pool = list(self.constants)
+        if not self.in_constant or self.wild(0.2):
+            # labels are not visible to constant definitions
+            pool += self.labels
+        if self.wild(0.07) or not pool:
+            return rng.choice(['UNDEFINED', 'l99', 'x0', 'sp']) if not self.tame else '12'
+        return rng.choice(pool)
 
     def arith(self, depth=0):
         rng = self.rng
         roll = rng.random()
         if depth >= 2 or roll < 0.5:
             kind = rng.random()
-            if kind < 0.45:
+            if kind < 0.4:
                 n = self.small()
                 return str(n) if rng.random() < 0.7 else (hex(n) if n >= 0 else str(n))
-            if kind < 0.6:
+            if kind < 0.55:
                 n = self.large()
                 return hex(n) if n >= 0 else str(n)
             if kind < 0.93:
                 return self.name()
-            return rng.choice(["'a'", "'\\n'", "'0'", "'ab'", "''", '1.5', '"s"'])
+            if self.wild(0.4):
+                return rng.choice(["'ab'", "''", '1.5', 'None', "'\\'"])
+            if self.tame and depth > 0:
+                # char literals only work as a whole expression
+                return str(rng.randrange(0, 128))
+            return rng.choice(["'a'", "'\\n'", "'0'", "'~'", "'\\x41'"])
         if roll < 0.58:
             return '(' + self.arith(depth + 1) + ')'
         if roll < 0.64:
             return rng.choice(['-', '~']) + self.arith(depth + 1)
-        op = rng.choice(['+', '-', '*', '//', '%', '<<', '>>', '&', '|', '^', '+', '-', '/'])
+        op = rng.choice(['+', '-', '*', '<<', '>>', '&', '|', '^', '+', '-', '+', '-'])
+        if self.wild(0.15):
+            op = rng.choice(['//', '%', '/', '=='])
         right = self.arith(depth + 1) if op not in ('<<', '>>') else str(rng.choice([0, 1, 2, 4, 12, 20, 31]))
+        left = self.arith(depth + 1)
+        if op == '*' and ("'" in left or "'" in right):
+            # 'a' * <huge int> would try to allocate gigabytes
+            op = '+'
         sep = rng.choice([' ', ' ', ''])
-        if op in ('//',) or sep == '':
-            sep = ' ' if rng.random() < 0.7 else ''
-        return '{}{}{}{}{}'.format(self.arith(depth + 1), sep, op, sep, right)
+        return '{}{}{}{}{}'.format(left, sep, op, sep, right)
 
-    def imm(self):
+    def imm12(self):
+        """An immediate that fits a 12-bit field (unless wild)."""
         rng = self.rng
         roll = rng.random()
-        if roll < 0.45:
+        if roll < 0.4:
             return str(self.small())
-        if roll < 0.6:
+        if roll < 0.5 and not self.tame:
             return self.arith()
-        ref = self.name()
-        forms = ['%lo({a})', '%hi({a})', '%lo {a}', '%hi {a}', '%offset({r})', '%offset {r}', '%position({r}, {a})',
-                 '%position {r} {a}', '%hi(%position({r}, {a}))', '%lo(%position({r}, {a}))', '%hi(%offset({r}))',
-                 '%lo(%offset({r}))', '%lo(%hi({a}))', '%hi(%lo({a}))', '%HI({a})', '%offset()', '%position({r})']
+        if roll < 0.55:
+            return rng.choice(["'a'", "'\\n'", '0x7ff', '-0x800', '0b101', '0o17', '(1 << 11) - 1', '3 * 4 + 1'])
+        ref = rng.choice(self.labels) if self.tame or rng.random() < 0.9 else self.name()
+        forms = ['%lo({a})', '%lo({a})', '%lo {a}', '%lo(%position({r}, {a}))', '%lo(%offset({r}))', '%lo(%hi({a}))',
+                 '%lo(%lo({a}))', '%LO({a})', '%lo(%position {r} {a})', '%offset({r})', '%offset {r}', '%position({r}, 0)',
+                 '%lo(%hi(%position({r}, {a})))']
+        if self.wild(0.3):
+            forms = ['%hi({a})', '%position({r}, {a})', '%hi(%offset({r}))', '%offset()', '%position({r})', '%lo()', '%lo', '%offset({a})']
+        return rng.choice(forms).format(a=self.arith(), r=ref)
+
+    def imm20(self):
+        rng = self.rng
+        roll = rng.random()
+        if roll < 0.25:
+            return str(rng.choice([0, 1, 5, 0x12345, 0xfffff, 0x80000, 0x7ffff, rng.randrange(0, 2**20), -1, -524288]))
+        if self.wild(0.3):
+            return rng.choice([str(1048576), str(-524289), self.arith(), '%lo({})'.format(self.arith()), '%hi'])
+        ref = rng.choice(self.labels)
+        forms = ['%hi({a})', '%hi({a})', '%hi {a}', '%hi(%position({r}, {a}))', '%hi(%offset({r}))', '%hi(%hi({a}))',
+                 '%hi(%lo({a}))', '%Hi({a})', '%lo(%hi({a}))', '%hi(%position {r} {a})']
         return rng.choice(forms).format(a=self.arith(), r=ref)
 
     def sep(self):
@@ -481,23 +554,54 @@ class ProgramGenerator:
             out += '  # ' + rng.choice(['comment', 'addi t0, t0, 1', "it's", '%hi(x)'])
         return rng.choice(['', '    ', '\t', '  ']) + out
 
-    def target(self):
+    def target(self, numeric_ok=False):
         rng = self.rng
-        roll = rng.random()
-        if roll < 0.75:
+        if self.tame and not numeric_ok:
             return rng.choice(self.labels)
-        if roll < 0.85:
-            return str(rng.choice([0, 2, 4, 8, -4, -8, 16, 254, -256, 4094, 4096, 3, 0x100000, 1048574, -1048576]))
-        if roll < 0.95 and self.constants:
-            return rng.choice(self.constants)
-        return rng.choice(['nowhere', 'x0'])
+        if self.wild(0.25):
+            return rng.choice(['nowhere', 'x0', '3', str(0x100000), '1048574', '-1048576', '4094', '4096', 'UNDEFINED'] + self.constants)
+        if rng.random() < 0.1:
+            return str(rng.choice([0, 2, 4, 8, -4, -8, 16, 254, -256]))
+        return rng.choice(self.labels)
 
-    def base_offset(self, name, reg_a, reg_b):
+    def base_offset(self, name, reg_a, reg_b, word=False):
         rng = self.rng
         if rng.random() < 0.5:
-            off = rng.choice([str(self.small()), self.name(), '%lo({})'.format(self.arith())])
+            # the offset has to be a single token in this syntax
+            off = str(rng.choice([0, 4, 8, 64, 124]) if word else self.small())
+            if self.wild(0.2):
+                off = rng.choice(['%lo(4)', '(4)', '4 + 4'])
             return self.join(name, reg_a, '{}({})'.format(off, reg_b))
-        return self.join(name, reg_a, reg_b, self.imm())
+        return self.join(name, reg_a, reg_b, rng.choice(['0', '4', '8', '64', '124']) if word else self.imm12())
+
+    def data_line(self):
+        rng = self.rng
+        roll = rng.random()
+        if roll < 0.25:
+            choices = ['string hello', 'string "hello world"', 'string hello\\nworld', 'string  héllo # not a comment',
+                       'string a\\x00b', 'STRING upper', 'string abc']
+            if self.wild(0.2):
+                choices = ['string', 'string a\\']
+            return rng.choice(choices)
+        if roll < 0.55:
+            name = rng.choice(['bytes', 'shorts', 'ints', 'longs', 'longlongs'])
+            limit = {'bytes': 2**8, 'shorts': 2**16, 'ints': 2**32, 'longs': 2**32, 'longlongs': 2**64}[name]
+            values = [rng.choice([str(rng.randrange(0, limit)), hex(rng.randrange(0, 256)), '-1', '0b11', str(rng.randrange(-128, 128))])
+                      for _ in range(rng.randrange(0 if not self.tame else 1, 6))]
+            if self.wild(0.3):
+                values.append(rng.choice(['FOO', '1.5', hex(limit), str(-limit)]))
+            return self.join(name, *values)
+        if roll < 0.8:
+            fmt, value = rng.choice([('<B', '200'), ('<b', '-100'), ('<H', '0xffff'), ('<h', '-2'), ('<I', hex(rng.randrange(0, 2**32))),
+                                     ('<i', str(self.small())), ('>I', '0x12345678'), ('<Q', hex(rng.randrange(0, 2**64))),
+                                     ('<I', '%position({}, {})'.format(rng.choice(self.labels), hex(rng.randrange(0, 2**31)))),
+                                     ('<i', '%offset({})'.format(rng.choice(self.labels))), ('<i', self.imm12()), ('<i', self.imm20()),
+                                     ('<I', self.name())])
+            if self.wild(0.3):
+                fmt, value = rng.choice([('I', '1'), ('<f', '1'), ('<II', '1'), ('zz', '1'), ('<B', '256'), ('<I', '-1'), ('<I', '')])
+            return self.join('pack', fmt, value)
+        name = rng.choice(['db', 'dh', 'dw', 'dd'])
+        return self.join(name, rng.choice([self.imm12(), str(self.small()), '-1', '0x7f', '100', self.imm20()]))
 
     def line(self):
         rng = self.rng
@@ -505,23 +609,28 @@ class ProgramGenerator:
         roll = rng.random()
         if roll < 0.07:
             name = rng.choice(['K', 'VAL', 'ADDR', 'OFF', 'MASK', 'N']) + str(len(self.constants))
-            if rng.random() < 0.03:
+            if self.wild(0.1):
                 name = rng.choice(['t0', '12', 'x5', '0x10', name])
-            text = '{} = {}'.format(name, rng.choice([self.arith(), self.arith(), str(self.small()), hex(abs(self.large())),
-                                                        '%hi(4)', '%offset(l0)']))
+            self.in_constant = True
+            value = rng.choice([self.arith(), self.arith(), str(self.small()), hex(abs(self.large()))])
+            if self.wild(0.1):
+                value = rng.choice(['%hi(4)', '%offset(l0)', '%lo(4)', '', '1 +'])
+            self.in_constant = False
             self.constants.append(name)
-            return text
+            return '{} = {}'.format(name, value)
         if roll < 0.09:
             name = 'r' + str(len(self.aliases))
             self.aliases.append(name)
-            return '{} = {}'.format(name, rng.choice(COMMON_REGS + ['x5', 't1', '9', '40']))
+            return '{} = {}'.format(name, rng.choice(COMMON_REGS + ['x5', 't1', '9'] + (['40', '-1'] if not self.tame else [])))
         if roll < 0.17:
             if self.pending_labels and rng.random() < 0.9:
                 return self.pending_labels.pop(0) + ':'
             return rng.choice(self.labels + ['dup', 'l0']) + ':'
         if roll < 0.27:
-            return self.join(rng.choice(sorted(mod.R_TYPE_INSTRUCTIONS)), self.reg(), self.reg(),
-                             self.reg() if rng.random() < 0.7 else rng.choice(['0', '1', '5', '31', '32']))
+            name = rng.choice(sorted(mod.R_TYPE_INSTRUCTIONS))
+            if name in ('slli', 'srli', 'srai'):
+                return self.join(name, self.reg(), self.reg(), rng.choice(['0', '1', '5', '31'] + (['32', '-1', 'a0'] if not self.tame else [])))
+            return self.join(name, self.reg(), self.reg(), self.reg())
         if roll < 0.42:
             name = rng.choice(['addi', 'addi', 'addi', 'andi', 'ori', 'xori', 'slti', 'sltiu', 'lw', 'lw', 'lb', 'lbu', 'lh',
                                'lhu', 'jalr', 'csrrw', 'csrrs', 'csrrc', 'csrrwi', 'csrrsi', 'csrrci'])
@@ -529,36 +638,42 @@ class ProgramGenerator:
                 if name == 'jalr' and rng.random() < 0.3:
                     return self.join(name, self.reg())
                 return self.base_offset(name, self.reg(), self.reg())
-            return self.join(name, self.reg(), self.reg(), self.imm())
+            if name.startswith('csr'):
+                source = self.reg() if not name.endswith('i') else str(rng.randrange(0, 32))
+                csr = rng.choice(['0x300', '0x305', '0x341', '0', '0x7ff', '-0x400', 'MSTATUS'] + (['0xc00', '0xfff', '4096', '-1'] if not self.tame else []))
+                if csr == 'MSTATUS' and 'MSTATUS' not in self.constants:
+                    csr = '0x300'
+                return self.join(name, self.reg(), source, csr)
+            return self.join(name, self.reg(), self.reg(), self.imm12())
         if roll < 0.47:
             return self.base_offset(rng.choice(sorted(mod.S_TYPE_INSTRUCTIONS)), self.reg(), self.reg())
         if roll < 0.54:
-            return self.join(rng.choice(sorted(mod.B_TYPE_INSTRUCTIONS)), self.reg(), self.reg(), self.target())
+            return self.join(rng.choice(sorted(mod.B_TYPE_INSTRUCTIONS)), self.reg(), self.reg(), self.target(numeric_ok=True))
         if roll < 0.59:
-            return self.join(rng.choice(['lui', 'auipc']), self.reg(),
-                             rng.choice([self.imm(), '%hi({})'.format(self.arith()), str(rng.randrange(0, 2**20)),
-                                         str(rng.choice([-1, -524288, 524287, 1048575, 1048576]))]))
+            return self.join(rng.choice(['lui', 'auipc']), self.reg(), self.imm20())
         if roll < 0.63:
             if rng.random() < 0.4:
                 return self.join('jal', self.target())
-            return self.join('jal', self.reg(), self.target())
+            return self.join('jal', self.reg(), self.target(numeric_ok=True))
         if roll < 0.78:
             name = rng.choice(sorted(mod.PSEUDO_INSTRUCTIONS))
             if name in ('nop', 'ret', 'fence'):
                 if name == 'fence' and rng.random() < 0.5:
-                    return self.join('fence', rng.choice(['0b1111', '3', 'iorw', '16']), rng.choice(['0b1111', '0', '-1']))
+                    return self.join('fence', rng.choice(['0b1111', '3', '0'] + (['iorw', '16'] if not self.tame else [])),
+                                     rng.choice(['0b1111', '0', '0xf'] + (['-1'] if not self.tame else [])))
                 return self.join(name)
             if name == 'li':
                 return self.join('li', self.reg(), rng.choice([str(self.small()), hex(abs(self.large())), str(self.large()),
-                                                                self.arith(), self.imm(), self.name()]))
+                                                                self.arith(), self.imm12(), self.imm20(), self.name(),
+                                                                '%position({}, {})'.format(rng.choice(self.labels), hex(self.large()))]))
             if name in ('mv', 'not', 'neg', 'seqz', 'snez', 'sltz', 'sgtz'):
                 return self.join(name, self.reg(), self.reg())
             if name in ('beqz', 'bnez', 'blez', 'bgez', 'bltz', 'bgtz'):
-                return self.join(name, self.reg(), self.target())
+                return self.join(name, self.reg(), rng.choice(self.labels) if self.tame else self.target())
             if name in ('bgt', 'ble', 'bgtu', 'bleu'):
-                return self.join(name, self.reg(), self.reg(), self.target())
+                return self.join(name, self.reg(), self.reg(), rng.choice(self.labels) if self.tame else self.target())
             if name in ('j', 'jal', 'call', 'tail'):
-                return self.join(name, self.target())
+                return self.join(name, rng.choice(self.labels) if self.tame else self.target())
             if name in ('jr', 'jalr'):
                 return self.join(name, self.reg())
             return self.join(name)
@@ -568,12 +683,19 @@ class ProgramGenerator:
             name = rng.choice(sorted(mod.A_TYPE_INSTRUCTIONS) + ['lr.w'])
             args = [self.reg(), self.reg()] if name == 'lr.w' else [self.reg(), self.reg(), self.reg()]
             if rng.random() < 0.4:
-                args += [rng.choice(['0', '1']), rng.choice(['0', '1', '2'])]
-            if rng.random() < 0.05:
+                args += [rng.choice(['0', '1']), rng.choice(['0', '1'] + (['2'] if not self.tame else []))]
+            if self.wild(0.1):
                 args += ['1']
             return self.join(name, *args)
         if roll < 0.90:
             # explicit compressed instructions
+            if self.tame or rng.random() < 0.5:
+                common = ['s0', 's1', 'a0', 'a1', 'a2', 'a3', 'a4', 'a5', 'x8', 'x15']
+                anyreg = ['ra', 't0', 'a0', 's1', 't6', 'sp', 'x31', 'a5']
+                template = rng.choice(self.TAME_COMPRESSED)
+                return rng.choice(['', '    ']) + template.format(c=rng.choice(common), c2=rng.choice(common), r=rng.choice(anyreg),
+                                                                  r2=rng.choice(anyreg), l=rng.choice(self.labels),
+                                                                  k=rng.choice(self.constants) if self.constants else '0x123')
             name = rng.choice(['c.mv', 'c.add', 'c.jr', 'c.jalr', 'c.ebreak', 'c.addi', 'c.li', 'c.lui', 'c.slli', 'c.lwsp',
                                'c.addi16sp', 'c.nop', 'c.swsp', 'c.addi4spn', 'c.lw', 'c.sw', 'c.sub', 'c.xor', 'c.or', 'c.and',
                                'c.srli', 'c.srai', 'c.andi', 'c.beqz', 'c.bnez', 'c.jal', 'c.j'])
@@ -584,45 +706,46 @@ class ProgramGenerator:
             if name in ('c.ebreak', 'c.nop'):
                 return self.join(name)
             if name in ('c.lw', 'c.sw'):
-                return self.base_offset(name, self.reg(), self.reg())
+                return self.base_offset(name, self.reg(), self.reg(), word=rng.random() < 0.7)
             if name in ('c.addi16sp', 'c.jal', 'c.j'):
-                return self.join(name, rng.choice([self.imm(), '%offset({})'.format(rng.choice(self.labels)), str(self.small())]))
+                return self.join(name, rng.choice([self.imm12(), '%offset({})'.format(rng.choice(self.labels)), str(self.small())]))
             if name in ('c.beqz', 'c.bnez'):
                 return self.join(name, self.reg(), rng.choice(['%offset({})'.format(rng.choice(self.labels)), str(self.small())]))
-            return self.join(name, self.reg(), self.imm())
+            return self.join(name, self.reg(), self.imm12())
         if roll < 0.92:
-            return self.join('align', rng.choice(['4', '2', '8', '16', '1', '0x10', '3', '0', '-4', 'four', '4 4']))
-        if roll < 0.94:
-            return rng.choice(['string hello', 'string "hello world"', 'string hello\\nworld', 'string  h\u00e9llo # not a comment',
-                               'string a\\x00b', 'STRING upper', 'string'])
-        if roll < 0.97:
-            name = rng.choice(['bytes', 'shorts', 'ints', 'longs', 'longlongs'])
-            count = rng.randrange(0, 6)
-            values = [rng.choice([str(self.small()), hex(rng.randrange(0, 256)), hex(abs(self.large())), '-1', 'FOO', '1.5'])
-                      for _ in range(count)]
-            return self.join(name, *values)
+            return self.join('align', rng.choice(['4', '2', '8', '16', '4', '0x10'] +
+                                                 (['3', '0', '-4', 'four', '4 4', '1'] if not self.tame else [])))
         if roll < 0.985:
-            fmt = rng.choice(['<B', '<b', '<H', '<h', '<I', '<i', '>I', '<Q', 'I', '<f', '<II', 'zz'])
-            return self.join('pack', fmt, self.imm())
-        if roll < 0.995:
-            return self.join(rng.choice(['db', 'dh', 'dw', 'dd']), rng.choice([self.imm(), str(self.small()), hex(abs(self.large())), '-1']))
+            text = self.data_line()
+            # keep the code after data aligned (most of the time)
+            if rng.random() < 0.9:
+                text += '\n' + rng.choice(['align 4', '    align 4', 'ALIGN 4', 'align 8'])
+            return text
+        if self.tame:
+            return rng.choice(['include_bytes data.bin\nalign 4', 'include inc.asm', 'include "inc.asm"  # shared'])
         return rng.choice(['include_bytes data.bin', 'include_bytes sub.bin', 'include_bytes missing.bin', 'include_bytes',
                            'include inc.asm', 'include "inc.asm"', 'include missing.asm', 'include', 'error something went wrong',
-                           'bogus t0, t1', 'addi', 'lw t0', '= 5', 'x = = 2'])
+                           'bogus t0, t1', 'addi', 'lw t0', '= 5', 'x = = 2', 'addi t0, t0', 'add t0, t0'])
 
     def program(self):
         rng = self.rng
         lines = [self.line() for _ in range(rng.randrange(1, 40))]
         # most programs should define all their labels (so that they get past the early passes)
-        if rng.random() < 0.9:
+        if self.tame or rng.random() < 0.8:
             for label in self.pending_labels:
                 lines.insert(rng.randrange(0, len(lines) + 1), label + ':')
             self.pending_labels = []
-        if rng.random() < 0.3:
+        if rng.random() < 0.35:
             # a far-away constant target makes call / tail / li take their long forms
-            lines.insert(0, 'FARAWAY = {}'.format(hex(abs(self.large()))))
+            lines.insert(0, 'FARAWAY = {}'.format(hex(rng.choice([0x20000000, 0x7ffff800, 0x100000, 0x1007fc, 0xfffff, 0x8000_0000,
+                                                                    0xfffff800, rng.randrange(0x100000, 2**31) & ~1]))))
             self.constants.append('FARAWAY')
-            lines.append(self.join(rng.choice(['call', 'tail', 'j', 'li t0,']), 'FARAWAY'))
+            for _ in range(rng.randrange(1, 4)):
+                far = rng.choice(['call FARAWAY', 'tail FARAWAY', 'li t0, FARAWAY', 'li a0, FARAWAY + 0x7ff', 'lui a0, %hi(FARAWAY)',
+                                  'addi a0, a0, %lo(FARAWAY)', 'lw a0, %lo(FARAWAY + 4)(a1)' if not self.tame else 'lw a0, a1, %lo(FARAWAY + 4)',
+                                  'li t1, %position(l0, FARAWAY)', 'auipc t0, %hi(%offset(FARAWAY))', 'jalr ra, t0, %lo(%offset(FARAWAY))'] +
+                                 (['j FARAWAY', 'beq a0, a1, FARAWAY'] if not self.tame else []))
+                lines.insert(rng.randrange(1, len(lines) + 1), '    ' + far)
         if rng.random() < 0.1:
             lines.insert(rng.randrange(0, len(lines) + 1), rng.choice(['', '   ', '# only a comment', '\t# x']))
         return '\n'.join(lines) + rng.choice(['\n', '', '\n\n'])
@@ -863,21 +986,27 @@ def cli_case_matrix():
 
 
 def random_cli_argv(rng):
-    programs = list(CLI_PROGRAMS) + ['missing.asm', 'outdir', 'good.asm', 'good.asm', 'compressible.asm', 'uses_inc.asm']
+    working = ['good.asm', 'compressible.asm', 'uses_inc.asm', 'uses_bytes.asm', 'labels_only.asm', 'unicode.asm', 'empty.asm']
+    programs = working * 3 + list(CLI_PROGRAMS) + ['missing.asm', 'outdir']
+
+    def pick(good, bad):
+        return rng.choice(good) if rng.random() < 0.85 else rng.choice(bad)
+
     argv = []
-    if rng.random() < 0.97:
+    if rng.random() < 0.98:
         argv.append([rng.choice(programs)])
     if rng.random() < 0.4:
         argv.append(['-c'])
-    for _ in range(rng.choice([0, 0, 0, 1, 1, 2, 3])):
-        argv.append([rng.choice(['-i', '--include']), rng.choice(['inc', 'inc2', 'inc', 'outdir', 'nodir', 'notadir', '.', '..', ''])])
+    for _ in range(rng.choice([0, 1, 1, 2, 2, 3])):
+        argv.append([rng.choice(['-i', '--include']), pick(['inc', 'inc2', 'outdir', '.', '..', 'inc/../inc2'], ['nodir', 'notadir', ''])])
     if rng.random() < 0.5:
-        argv.append([rng.choice(['-o', '--output']), rng.choice(['out.bin', 'outdir/o.bin', 'nodir/o.bin', 'bb.out', '', 'outdir', 'labels.txt'])])
+        argv.append([rng.choice(['-o', '--output']), pick(['out.bin', 'outdir/o.bin', 'bb.out', 'labels.txt', './x.bin'], ['nodir/o.bin', '', 'outdir'])])
     if rng.random() < 0.5:
-        argv.append([rng.choice(['-l', '--labels']), rng.choice(['labels.txt', 'outdir/l.txt', 'nodir/l.txt', '', 'out.bin', 'outdir'])])
+        argv.append([rng.choice(['-l', '--labels']), pick(['labels.txt', 'outdir/l.txt', 'out.bin'], ['nodir/l.txt', '', 'outdir'])])
     if rng.random() < 0.55:
-        argv.append(['--hex-offset', rng.choice(['0', '0', '0x0', '4', '0x08000000', '0o10', '0b11', 'zz', '', '0x', '12abc', ' 8', '1e3',
-                                                 '0x10000', '-4', '08', str(rng.randrange(0, 2**32)), hex(rng.randrange(0, 2**20))])])
+        argv.append(['--hex-offset', pick(['0', '0', '0x0', '00', '4', '0x08000000', '0o10', '0b11', ' 8', '0x10000', '1_6',
+                                           str(rng.randrange(0, 2**32)), hex(rng.randrange(0, 2**20))],
+                                          ['zz', '', '0x', '12abc', '1e3', '-4', '08'])])
     if rng.random() < 0.3:
         argv.append(['--include-definitions'])
     if rng.random() < 0.3:
@@ -959,7 +1088,7 @@ def run_cli_inprocess(mod, variant_root, case_dir, argv):
 
 
 def check_cli_subprocess(workdir, orig_root):
-    roots = {'orig': orig_root, 'new': ROOT}
+    roots = {'orig': orig_root, 'new': NEW_ROOT}
     base = os.path.join(workdir, 'cli')
     os.makedirs(base)
 
@@ -983,7 +1112,7 @@ def check_cli_subprocess(workdir, orig_root):
 
 def check_cli_inprocess(orig, new, workdir, orig_root):
     # b) in-process runs (patched sys.argv) over many random option combinations
-    roots = {'orig': orig_root, 'new': ROOT}
+    roots = {'orig': orig_root, 'new': NEW_ROOT}
     base = os.path.join(workdir, 'cli_inprocess')
     os.makedirs(base)
     rng = random.Random(SEED + 3)
@@ -1012,12 +1141,14 @@ def check_cli_inprocess(orig, new, workdir, orig_root):
 # ---------------------------------------------------------------------------
 
 def main():
+    # char literals such as '\\q' make eval() warn about invalid escapes (in both versions)
+    warnings.simplefilter('ignore')
     workdir = os.path.realpath(tempfile.mkdtemp(prefix='bb_equiv_'))
     start_cwd = os.getcwd()
     try:
         orig_root = setup_original(workdir)
         orig = load_module('bb_asm_orig', os.path.join(orig_root, 'bronzebeard', 'asm.py'))
-        new = load_module('bb_asm_new', os.path.join(ROOT, 'bronzebeard', 'asm.py'))
+        new = load_module('bb_asm_new', os.path.join(NEW_ROOT, 'bronzebeard', 'asm.py'))
         with open(orig.__file__, 'rb') as f, open(new.__file__, 'rb') as g:
             identical = f.read() == g.read()
         print('original: {}'.format(orig.__file__))
